@@ -613,10 +613,13 @@ def model_guards(drv, contents):
     """Loader.mk_guard on each Makefile content: False = the panicking shape"""
     if not contents:
         return []
-    rc, mo, me = vlib.run_lines(drv, ["guardmk\t" + hx(b(c)) for c in contents])
-    if rc != 0 or len(mo) != len(contents):
+    # the extracted model is quadratic in the line length (List.rev): no verdict (None) on very long lines
+    small = [max((len(l) for l in b(c).split(b"\n")), default=0) < 8000 for c in contents]
+    rc, mo, me = vlib.run_lines(drv, ["guardmk\t" + hx(b(c)) for c, ok in zip(contents, small) if ok])
+    if rc != 0 or len(mo) != sum(small):
         raise RuntimeError("model driver failed on guardmk: " + me[-300:])
-    return [l.strip() == "guard=1" for l in mo]
+    it = iter(mo)
+    return [(next(it).strip() == "guard=1") if ok else None for ok in small]
 
 
 def diff_hint(o):
@@ -673,7 +676,8 @@ def mutate(rng, data):
     return bytes(data)
 
 
-LONG = 65536
+LONG = 300      # token limit used for the scanner boundary cases (bufio.MaxScanTokenSize scaled down on both sides)
+REAL_LONG = 65536
 SCAN_NASTIES = [
     b"", b"# @grog", b"# @grog\n", b"# @grog\nfoo:", b"# @grog\nfoo:\n\techo hi\n", b"# @grog\n\n\nfoo:\n", b"  # @grog  \nfoo:",
     b"# @grog\r\nfoo:\r\n", b"# @grog\r\n# name: x\r\nfoo:\r\n\techo\r\n", b"# @grog\n# name: x", b"# @grog\n# name: x\n",
@@ -681,7 +685,7 @@ SCAN_NASTIES = [
     b"# @grog\n# name: [\nfoo:", b"# @grogfoo\n# name: y\nbar:", b"#@grog\nfoo:", b"# @grog\n# name: a\nx: y: z", b"# @grog\n# name: a\n:",
     b"# @grog\n# name: a\n\t:\n", b"# @grog\n# name: a\nfoo\n# @grog\nbar:", b"# @grog\n# name: a\nfoo:\n# @grog\nbar:",
     b"# @grog\n# name: a: b\nfoo:\n# @grog\nbar:", b"# @grog\n# name: a\nfoo:\n\n# @grog\n\n\nbar: x\n", b"x:\n# @grog\n# tags: [a]\n",
-    b"# @grog\n# name: " + b"a" * 70000 + b"\nfoo:", b"x" * (LONG - 1) + b"\n# @grog\nfoo:", b"x" * LONG + b"\n# @grog\nfoo:",
+    b"# @grog\n# name: " + b"a" * (LONG + 37) + b"\nfoo:", b"x" * (LONG - 1) + b"\n# @grog\nfoo:", b"x" * LONG + b"\n# @grog\nfoo:",
     b"# @grog\n# name: a\n" + b"f" * LONG + b":", b"# @grog\n# name: a\n" + b"f" * (LONG - 2) + b":", b"# @grog\n# name: a\nfoo:\n" + b"y" * LONG,
     b"x" * (LONG - 1) + b"\r\n# @grog\n# name: q\nfoo:", b"\xc2\xa0# @grog\nfoo:", b"\xe2\x80\x83# @grog\n\xe3\x80\x80\nfoo:", b"# @grog\n\x85\nfoo:",
     b"\xc2\x85# @grog\n# name: a\nfoo:", b"# @grog\n# name: a\n\xe2\x80\xa8\nfoo:", b"# @grog\n\xe2\x80\nfoo:", b"# @grog\n# name: a\n\xa0foo:",
@@ -708,27 +712,29 @@ def scan_obs(status, pay):
 
 
 def eval_scanners(out, h, drv, cases, findings, stats):
-    """cases: [(kind 'mk'|'sh', content bytes)] -- real scanner vs Loader.scan_*_file with the real
-    YAML decoder as oracle; panic classes decided by Loader.mk_guard."""
+    """cases: [(kind 'mk'|'sh', content bytes[, token limit])] -- real scanner vs Loader.scan_*_file with the
+    real YAML decoder as oracle; panic classes decided by Loader.mk_guard."""
     fname = "x.grog.sh"
-    impl = run_harness(h, ["scanmk\t%s" % hx(c) if k == "mk" else "scansh\t%s\t%s" % (hx(fname), hx(c)) for k, c in cases])
-    rc, bl, me = vlib.run_lines(drv, [("blocksmk\t%s" if k == "mk" else "blockssh\t%s") % hx(c) for k, c in cases])
+    cases = [(c[0], c[1], c[2] if len(c) > 2 else None) for c in cases]
+    sfx = lambda n: ("\t%d" % n) if n else ""
+    impl = run_harness(h, [("scanmk\t%s" % hx(c) if k == "mk" else "scansh\t%s\t%s" % (hx(fname), hx(c))) + sfx(n) for k, c, n in cases])
+    rc, bl, me = vlib.run_lines(drv, [("blocksmk\t%s" if k == "mk" else "blockssh\t%s") % hx(c) + sfx(n) for k, c, n in cases])
     if rc != 0 or len(bl) != len(cases):
         raise RuntimeError("model driver failed on blocks: " + me[-300:])
-    queries = sorted({(k, blk) for (k, _), l in zip(cases, bl) for blk in l.split("\t")[1:]})
+    queries = sorted({(k, blk) for (k, _, _), l in zip(cases, bl) for blk in l.split("\t")[1:]})
     ya = run_harness(h, ["yamlann\t%s\t%s" % (k, blk) for k, blk in queries])
     table = {}
     for (k, blk), a in zip(queries, ya):
         f = a.split("\t")
         table[(k, blk)] = sx_annot(json.loads(f[1])) if f[0] == "ok" else "E"
     mlines = []
-    for (k, c), l in zip(cases, bl):
+    for (k, c, n), l in zip(cases, bl):
         t = sx_list(["( %s %s )" % (blk, table[(k, blk)]) for blk in sorted(set(l.split("\t")[1:]))])
-        mlines.append("scanmk\t%s\t%s" % (hx(c), t) if k == "mk" else "scansh\t%s\t%s\t%s" % (hx(fname), hx(c), t))
+        mlines.append(("scanmk\t%s\t%s" % (hx(c), t) if k == "mk" else "scansh\t%s\t%s\t%s" % (hx(fname), hx(c), t)) + sfx(n))
     rc, mo, me = vlib.run_lines(drv, mlines)
     if rc != 0 or len(mo) != len(cases):
         raise RuntimeError("model driver failed on scan: " + me[-300:])
-    for (k, c), a, m in zip(cases, impl, mo):
+    for (k, c, n), a, m in zip(cases, impl, mo):
         stats["scanner_cases"] += 1
         mf = m.split("\t")
         guard = None
@@ -740,7 +746,7 @@ def eval_scanners(out, h, drv, cases, findings, stats):
         io, mo_ = scan_obs(ist, ipay), scan_obs(mst, mpay)
         stats["scanner_outcomes"][k + ":" + io[0] + (":" + io[1] if io[0] == "error" else "")] = \
             stats["scanner_outcomes"].get(k + ":" + io[0] + (":" + io[1] if io[0] == "error" else ""), 0) + 1
-        rep = {"kind": "scanner", "scanner": k, "content_hex": c.hex(), "impl": a[:2000], "model": m[:2000]}
+        rep = {"kind": "scanner", "scanner": k, "content_hex": c.hex(), "token_limit": n or REAL_LONG, "impl": a[:2000], "model": m[:2000]}
         if ist in ("panic", "hang"):
             if ist == "panic" and k == "mk" and guard is False and "makefile-bare-annotation-panic" in findings:
                 out.known(findings["makefile-bare-annotation-panic"]["id"],
@@ -814,12 +820,41 @@ def eval_robustness_confirmed(out, h, drv, base, cases, findings, stats, first_m
         if a.split("\t")[0] == "hang":
             stats["hangs_reexamined"] += 1
             ans[k] = confirm_hang(h, lines[k], confirm_ms)
-    return judge_robustness(out, drv, cases, ans, findings, stats)
+    return judge_robustness(out, h, drv, cases, lines, ans, findings, stats)
 
 
-def judge_robustness(out, drv, cases, ans, findings, stats):
+NULLABLE = ("BUILD.json", "BUILD.yaml", "BUILD.yml")
+
+
+def nil_elements(h, path, fn, content):
+    """class guard of C16-F4, evaluated on the failing file: the DTO the real decoder delivers has a nil
+    entry in Targets or Aliases (a null list element).  Without the harness: the same question asked of
+    Python's JSON / YAML parser."""
+    if fn not in NULLABLE:
+        return False
+    if h:
+        a = run_harness(h, ["nilcheck\t%s\t%s" % (hx(path), hx(fn))])[0].split("\t")
+        return a[0] == "ok" and (int(a[1]) > 0 or int(a[2]) > 0)
+    try:
+        if fn == "BUILD.json":
+            doc = json.loads(content.decode("utf-8"))
+        else:
+            import yaml
+            doc = yaml.safe_load(content.decode("utf-8"))
+        return isinstance(doc, dict) and any(isinstance(doc.get(k), list) and any(x is None for x in doc[k]) for k in ("targets", "aliases"))
+    except Exception:
+        return False
+
+
+NIL_TEXT = "a null element in the targets / aliases list (%r) is decoded to a nil *TargetDTO / *AliasDTO that getEnrichedPackage dereferences: %s"
+
+
+def judge_robustness(out, h, drv, cases, lines, ans, findings, stats):
     """the judging half of eval_robustness on given answers; returns [(case, status)]"""
     bad, res = [], []
+    paths = {}
+    for (fn, content, origin), l in zip(cases, lines):
+        paths[(fn, content)] = unhx(l.split("\t")[2]).decode("utf-8", "surrogateescape")
     for (fn, content, origin), a in zip(cases, ans):
         st, pay, msg = obs_impl(a)
         res.append(((fn, content, origin), st))
@@ -844,6 +879,10 @@ def judge_robustness(out, drv, cases, ans, findings, stats):
         if st == "hang" and fn in ("BUILD.star", "BUILD.bzl") and star_has_loop(content) and "starlark-unbounded-execution" in findings:
             out.known(findings["starlark-unbounded-execution"]["id"],
                       "a BUILD.star with a long-running loop never finishes loading (no step limit, no cancellation): %r" % content[:70].decode("latin-1"))
+            stats["robust_known"] += 1
+            continue
+        if st == "panic" and "null-list-element-panic" in findings and nil_elements(h, paths[(fn, content)], fn, content):
+            out.known(findings["null-list-element-panic"]["id"], NIL_TEXT % (content[:50].decode("latin-1"), msg[:70]))
             stats["robust_known"] += 1
             continue
         out.violation("loader %s on %s (%s): %s" % (st, fn, origin, msg[:160]), rep)
@@ -876,6 +915,8 @@ ROBUST_NASTIES = [
     ("BUILD.json", b'{"targets": [{"name": "a", "command": "x", "bin_output": "::"}]}'),
     ("BUILD.json", b'{"targets": [{"name": "a", "command": "x", "timeout": "-1s"}]}'),
     ("BUILD.json", b'{"targets": [{"name": "a", "command": "x", "timeout": "9999999999999h"}]}'),
+    ("BUILD.json", b'{"aliases": [null]}'), ("BUILD.json", b'{"environments": [null], "targets": []}'),
+    ("BUILD.yaml", b"targets:\n  - ~\n"), ("BUILD.yaml", b"aliases: [null]\n"), ("BUILD.yml", b"targets:\n  -\n  - name: a\n    command: x\n"),
     ("BUILD.yaml", b""), ("BUILD.yaml", b"~"), ("BUILD.yaml", b"- a\n- b\n"), ("BUILD.yaml", b"targets: 3\n"), ("BUILD.yaml", b"targets:\n  - 3\n"),
     ("BUILD.yaml", b"targets:\n  - name: [a]\n"), ("BUILD.yaml", b"targets: &a\n  - name: x\n    command: y\naliases: *a\n"),
     ("BUILD.yaml", b"a: &a [x, x]\nb: &b [*a, *a]\nc: &c [*b, *b]\nd: &d [*c, *c]\ne: &e [*d, *d]\nf: &f [*e, *e]\ntargets: *f\n"),
@@ -896,7 +937,8 @@ ROBUST_NASTIES = [
     ("Makefile", b"# @grog\n# name: a\n# timeout: 1s\n# platforms: [linux/amd64]\nall:\n\ttrue\n"),
     ("Makefile", b"# @grog\n"), ("Makefile", b"# @grog\nall:\n"), ("Makefile", b"all:\n\ttrue\n"), ("Makefile", b"# @grog\n# name: a\nall\n"),
     ("x.grog.sh", b"#!/bin/sh\n# @grog\n# name: a\necho\n"), ("x.grog.sh", b"# @grog\necho\n"), ("x.grog.sh", b"# @grog\n# name: [\necho\n"),
-    ("x.grog.py", b"# @grog\n# inputs: 3\nprint()\n"), ("x.grog.sh", b""), ("x.grog.sh", b"# @grog\n# name: a\n" + b"y" * LONG),
+    ("x.grog.py", b"# @grog\n# inputs: 3\nprint()\n"), ("x.grog.sh", b""), ("x.grog.sh", b"# @grog\n# name: a\n" + b"y" * REAL_LONG),
+    ("Makefile", b"# @grog\n# name: a\n" + b"f" * REAL_LONG + b":"), ("Makefile", b"x" * (REAL_LONG - 1) + b"\n# @grog\n# name: a\nfoo:\n"),
 ]
 STAR_HANGS = [
     STAR_LOOP,
@@ -913,7 +955,7 @@ def render_script(rng, t):
 
 
 def scanner_cases(rng, xcases, n_mut):
-    cases = [("mk", c) for c in SCAN_NASTIES] + [("sh", c) for c in SCAN_NASTIES]
+    cases = [("mk", c, LONG) for c in SCAN_NASTIES] + [("sh", c, LONG) for c in SCAN_NASTIES]
     seeds = [("mk", b(c["files"]["mk"][1])) for c in xcases if "mk" in c["files"]]
     for c in xcases:
         for t in c["dto"]["targets"][:1]:
@@ -1181,7 +1223,7 @@ def cli_obs(r):
     return ("error", err_class(txt))
 
 
-def eval_cli(out, grog, drv, base, rng, n_pkgs, corrupt, findings, stats):
+def eval_cli(out, grog, drv, h, base, rng, n_pkgs, corrupt, findings, stats):
     """corrupt: [(file name, content bytes, in-process status)]"""
     jobs, cases = [], []
     for i in range(n_pkgs):
@@ -1263,6 +1305,11 @@ def eval_cli(out, grog, drv, base, rng, n_pkgs, corrupt, findings, stats):
                 out.known(findings["makefile-bare-annotation-panic"]["id"],
                           "grog graph with Makefile %r: exit %s and a Go panic trace instead of an error message" % (
                               content[:30].decode("latin-1"), rep["exit"]))
+                stats["cli_known"] += 1
+            elif "null-list-element-panic" in findings and nil_elements(h, os.path.join(base, "clic%d" % j, "ws", "pkg", fn), fn, content):
+                out.known(findings["null-list-element-panic"]["id"],
+                          "grog graph with %s %r: exit %s and a Go panic trace (nil pointer dereference in getEnrichedPackage)" % (
+                              fn, content[:40].decode("latin-1"), rep["exit"]))
                 stats["cli_known"] += 1
             else:
                 out.violation("grog graph: Go panic trace on a corrupt %s" % fn, rep)
@@ -1389,12 +1436,13 @@ def run(out, tier):
         eval_determinism(out, h, drv, base, rng, dcases, st)
         samples.append({"part": "determinism", "files": [[p, fn, txt[:200]] for p, fn, txt in dcases[0]["files"]],
                         "loads": ["%s creation order, num_workers=%d" % (t_, w_) for t_ in ("sorted", "shuffled") for w_ in WORKERS]})
-    corrupt_for_cli += [("Makefile", b"# @grog\nfoo:\n\techo hi\n", "panic"), ("BUILD.json", b"{", "error"),
+    corrupt_for_cli += [("Makefile", b"# @grog\nfoo:\n\techo hi\n", "panic"), ("BUILD.json", b'{"targets": [null]}', "panic"),
+                        ("BUILD.yaml", b"aliases:\n  - ~\n", "panic"), ("BUILD.json", b"{", "error"),
                         ("BUILD.yaml", b"targets: [", "error"), ("BUILD.star", b"target(", "error")]
     # (4) CLI
     grog = grog_f.result()
     if grog:
-        eval_cli(out, grog, drv, base, rng, 10 * vol, corrupt_for_cli, findings, st)
+        eval_cli(out, grog, drv, h, base, rng, 10 * vol, corrupt_for_cli, findings, st)
     hang_f.result()
     pool.shutdown()
     judge_hang_probe(out, hang_box, findings, st)
@@ -1489,7 +1537,11 @@ def replay(out, path):
         grog = vlib.build_grog()
         rng = vlib.Rng(vlib.seed())
         if kind == "cli-corrupt":
-            eval_cli(out, grog, drv, base, rng, 0, [(case["file"], bytes.fromhex(case["content_hex"]), case.get("inprocess", "error"))], findings, st)
+            try:
+                hh = vlib.build_harness("loader", extra_overlay=INJECT)
+            except vlib.HarnessUnavailable:
+                hh = None
+            eval_cli(out, grog, drv, hh, base, rng, 0, [(case["file"], bytes.fromhex(case["content_hex"]), case.get("inprocess", "error"))], findings, st)
         else:
             replay_cli_case(out, grog, drv, base, case, findings, st)
         print("cli:", st["cli_outcomes"], st["cli_corrupt"])
@@ -1500,7 +1552,8 @@ def replay(out, path):
         eval_xformat(out, h, drv, base, [case], findings, st)
         print("cross-format outcomes:", st["outcomes"], "makefile dropped:", st["makefile_dropped"], "bare panics:", st["makefile_bare_panics"])
     elif kind == "scanner":
-        eval_scanners(out, h, drv, [(case["scanner"], bytes.fromhex(case["content_hex"]))], findings, st)
+        lim = case.get("token_limit")
+        eval_scanners(out, h, drv, [(case["scanner"], bytes.fromhex(case["content_hex"]), None if lim in (None, REAL_LONG) else lim)], findings, st)
         print("scanner outcomes:", st["scanner_outcomes"])
     elif kind == "robust":
         res = eval_robustness_confirmed(out, h, drv, base, [(case["file"], bytes.fromhex(case["content_hex"]), case.get("origin", "replay"))],
